@@ -64,6 +64,12 @@ def directed_cases():
                         "secs": [1_700_000_000, 1_600_000_000, 5],
                         "src": [[], [1, 1, 0], [2, 1, 0], [3, 1, 0]], "dst": [[2, 2, 0], [], [1, 2, 0], [3, 1, 0]],
                         "pats": [], "del": dl, "dry": False, "dir": d, "jobs": 1 + v})
+    # a root that is a symbolic link to the directory, on either side and in every direction; destination partly in place
+    for d in ("local", "push", "pull"):
+        for v, (side, dl) in enumerate([("dst", False), ("src", False), ("dst", True), ("src", True)]):
+            out.append({"id": f"rootlink{v}-{d}", "names": ["a", "sub/b c", "stale", "z"], "secs": [1_700_000_000, 1_600_000_000, 5],
+                        "src": [[1, 1, 0], [2, 1, 1], [], [3, 2, 0]], "dst": [[1, 1, 0], [], [2, 2, 0], [1, 2, 0]],
+                        "pats": [], "del": dl, "dry": False, "dir": d, "jobs": 1 + v % 2, "root_link": side})
     return out
 
 
